@@ -9,7 +9,7 @@ In addition the work of the one loop whose length is controlled by a configurati
 compute_attractor_candidates - is COUNTED (instrumentation of run_simulation_minification, nothing is changed): the
 round length is meant to double from 2**10 and the loop must stop once a round removes nothing and
 round_length * #candidates exceeds B = minimum_simulation_budget * #variables of the percolated network, hence one candidate
-computation may run at most  max(1, floor(log2 B) - 8) + #initial candidates + 2  rounds.  A computation that starts one round
+computation may run at most  max(1, floor(log2 B) - 8) + #initial candidates  rounds.  A computation that starts one round
 more is aborted and reported as `simulation_rounds_exceed_bound` (so a stalled loop is reported after seconds, not after the
 wall limit).  The few cases with a large budget (several 100000) carry their own wall limit (`wall_limit`)."""
 import math
@@ -21,9 +21,10 @@ from common import fail, import_biobalm, make_sd, run_history
 BOUND = ("networks with <= 6(7) variables (exhaustive 1-variable, sampled 2-variable, seeded random) and hand-built networks with <= 9 variables incl. the two D3 "
          "inputs; seeded histories of <= 6 (quick) / <= 10 (thorough) arbitrary public calls (all expansion strategies with random limits and options, "
          "candidates/seeds/sets on expanded, unexpanded and skipped nodes with all option combinations incl. symbolic_fallback, skipping, reclaim, pickle, "
-         "succession_control) under seeded configurations (thresholds/limits/budgets in {0,1,2,5,default}); wall-clock limit 20 s per case; plus 3 (quick) / 7 (thorough) "
-         "cases with minimum_simulation_budget in 350000..600000 on nodes with a motif-avoidant attractor (own wall limit 120 s); in every case the simulation rounds of "
-         "each candidate computation are counted against max(1, floor(log2(budget * variables)) - 8) + initial candidates + 2")
+         "succession_control) under seeded configurations (thresholds/limits/budgets in {0,1,2,5,default}); wall-clock limit 20 s per case; plus 6 (quick) / 9 (thorough) "
+         "cases with minimum_simulation_budget in 250000..700000 on nodes with a motif-avoidant attractor (own wall limit 120 s; they come first) and a family with budget * "
+         "variables in 2**14..2**17 on motif-avoidant / multi-attractor nodes under every way of asking for candidates; in every case the simulation rounds of "
+         "each candidate computation are counted against max(1, floor(log2(budget * variables)) - 8) + initial candidates")
 RULE = "non-trivial = the history contains at least one attractor query or control call and at least one expansion or skipping call"
 CASE_TIMEOUT = 20.0
 TIMEOUT_IS_FAILURE = True
@@ -33,25 +34,73 @@ ALL_OPS = families.PLAIN_OPS + families.QUERY_OPS + families.QUERY_OPS + familie
 
 LARGE_BUDGET_WALL = 120.0
 # (network, prefix, budget, query): nodes with a motif-avoidant attractor and ONE surviving candidate, budget * variables >= 2**20
+# budget * variables in [2**20, 2**21): the unchanged tree runs 12 rounds (2**10 .. 2**21 steps, about 7 s); nothing cheaper can tell whether rounds beyond
+# 2**20 steps still make progress, so these cases come first (the smallest networks before the others) and are few
 LARGE_BUDGET = [
-    ("maa_core", [["succ", 0]], 400_000, ["cands", 0, True, True]),
     ("xnor2", [["succ", 0]], 600_000, ["seeds", 0, False]),
+    ("maa_core", [["succ", 0]], 400_000, ["cands", 0, True, True]),
     ("maa_latch", [["bfs", None, None, None]], 360_000, ["build"]),
-    ("core__switch_or", [["bfs", None, None, None]], 250_000, ["seeds", 0, False]),
+    ("xnor2", [["bfs", None, None, None]], 524_300, ["cands", 0, False, True]),
     ("maa_core", [["succ", 0]], 349_526, ["seeds", 0, False]),
+    ("xnor2", [["succ", 0], ["pickle"]], 700_000, ["sets", 0]),
+    ("core__switch_or", [["bfs", None, None, None]], 250_000, ["seeds", 0, False]),
     ("maa_gated", [["block", True, None, True, False]], 400_000, ["build"]),
     ("maa_source", [["scc", True]], 400_000, ["cands", 1, False, True]),
 ]
+LARGE_QUICK = 6
 
 
 def large_budget_nets():
     return dict(families.HAND, xnor2=families.XNOR2, **families.BLOCKS)
 
 
+def budget_cases(seed, tier):
+    """shape added after the seeded-change review: a RAISED minimum_simulation_budget (budget * variables between 2**14 and 2**17, mostly at the lower
+    end: 0.1 - 0.5 s per case) on nodes whose candidates cannot be eliminated by simulation - an expanded node with a motif-avoidant attractor and, less
+    often (slower), an unexpanded node with two or more complex attractors - under every way of asking for candidates (candidates / seeds / sets of
+    every node in some order, build, attractor-seed expansion, block / scc expansion with the motif-avoidance check); whatever the budget, the counted
+    rounds must stay within the bound."""
+    maa = [("xnor2", families.XNOR2), ("maa_core", families.MAA_CORE)] + families.maa_nets() + list(families.BLOCKS.items()) + [(f"cond{k}", families.cond_net(k)) for k in range(8)]
+    maa += [x for pair in zip(families.block_nets(seed, tier), families.maa_overlap_nets(seed, tier)) for x in pair]
+    stubs = [(k, families.norm(v)) for k, v in {"switch_osc": "x, y; y, x; a, !a", "src_osc": "s, s; a, !a", "toggle_osc": "u, !w; w, !u; a, !a", "src_neg2": "s, s; a, !b; b, a",
+                                               "switch_gated_osc": "x, y; y, x; a, !a | x"}.items()]
+    # (cost) the queried nodes are expanded: an unexpanded node of these networks has many attractors, i.e. many candidates that survive every round
+    prefixes = [[["succ", 0]], [["bfs", None, None, None]], [["dfs", None, None, None]], [["bfs", None, None, None], ["pickle"]], [["bfs", None, None, None], ["reclaim"]]]
+    done = set()
+    k = 0
+    for name, bnet in maa:
+        n = len(families.variables(bnet))
+        if bnet in done or n > 5:  # (cost: one candidate computation that can tell a stalled loop from a finishing one runs >= 2**16 simulation steps, about 0.2 s)
+            continue
+        done.add(bnet)
+        rng = random.Random(f"{seed}-{name}-c13-budget")
+        for rnd in range(3 if k < 14 else 1):
+            first = k < 2 and rnd == 0
+            e = 15 if first else rng.choice([14, 14, 14, 14, 15, 15, 16])
+            budget = int((2 ** e) * rng.uniform(1.05, 1.9) / (n if first else rng.choice([n, n, max(2, n - 2), 3]))) + 1
+            ids = list(range(6))
+            rng.shuffle(ids)
+            op = rng.choice([["cands", True, True], ["seeds", False], ["sets"], ["cands", False, True]])
+            every = [[op[0], i] + op[1:] for i in (range(6) if first else ids)]
+            fin = every if first else rng.choice([every] * 5 + [[["build"]]] * 2 + [[["block", True, None, True, False]], [["scc", True]], [["block", True, None, True, True]]])
+            pre = prefixes[0] if first else ([] if fin[0][0] in ("block", "scc") else rng.choice(prefixes[1:]))
+            yield {"net": name, "bnet": bnet, "config": {"minimum_simulation_budget": budget}, "history": pre + fin, "wall_limit": 60.0}
+        if k % 8 == 5:
+            name, bnet = stubs[(k // 8) % len(stubs)]
+            budget = int((2 ** 14) * 2 * rng.uniform(1.05, 1.5) / len(families.variables(bnet))) + 1
+            yield {"net": name, "bnet": bnet, "config": {"minimum_simulation_budget": budget}, "history": [rng.choice([["cands", 0, True, True], ["seeds", 0, False], ["sets", 0]])],
+                   "wall_limit": 60.0}
+        k += 1
+
+
 def cases(seed, tier):
     nets = large_budget_nets()
-    for name, pre, budget, query in (LARGE_BUDGET[:3] if tier == "quick" else LARGE_BUDGET):
+    for name, pre, budget, query in (LARGE_BUDGET[:LARGE_QUICK] if tier == "quick" else LARGE_BUDGET):
         yield {"net": name, "bnet": nets[name], "config": {"minimum_simulation_budget": budget}, "history": pre + [query], "wall_limit": LARGE_BUDGET_WALL}
+    yield from families.interleave((budget_cases(seed, tier), 1), (general_cases(seed, tier), 80))
+
+
+def general_cases(seed, tier):
     yield {"net": "D3a", "bnet": families.HAND["D3a"], "config": {}, "history": [["seeds", 0, False]]}
     yield {"net": "D3b", "bnet": families.HAND["D3b"], "config": {}, "history": [["scc", True], ["seeds", 0, False]]}
     yield {"net": "D3b", "bnet": families.HAND["D3b"], "config": {}, "history": [["seeds", 0, False], ["sets", 0]]}
@@ -85,8 +134,10 @@ STATS = {"max_rounds": 0, "computations": 0, "rounds": 0}
 
 
 def rounds_bound(budget: int, variables: int, candidates: int) -> int:
+    """Round j runs 2**(9+j) steps, so from round T = max(1, floor(log2 B) - 8) on (B = budget * variables) a round that removes no candidate is the
+    last one; at most `candidates` rounds remove something: no computation starts more than T + candidates rounds."""
     b = max(1, int(budget) * int(variables))
-    return max(1, int(math.floor(math.log2(b))) - 8) + int(candidates) + 2
+    return max(1, int(math.floor(math.log2(b))) - 8) + int(candidates)
 
 
 def install_counters():
